@@ -143,7 +143,8 @@ func (self *BinaryConv) unmarshalSingular(ctx context.Context, resp http.Respons
 		if e != nil {
 			return wrapError(meta.ErrRead, "unmarshal Fixed32kind error", e)
 		}
-		*out = json.EncodeInt64(*out, int64(v))
+		// NOTICE: ReadFixed32 returns the unsigned value as int32
+		*out = json.EncodeInt64(*out, int64(uint32(v)))
 	case proto.SFIX32:
 		v, e := p.ReadSfixed32()
 		if e != nil {
